@@ -102,6 +102,9 @@ class C17Check:
             spawn_err = ch.chance(0.05, f"j{j}.oserr")
             jobs.append(dict(mode=mode, timeout=timeout, dur=dur, reply=reply, delay=delay,
                              children=children, deaf=deaf, term_delay=term_delay, spawn_err=spawn_err))
+        glitch = ch.choose([None, None, None, "IndexError", "AccessDenied"], "psutil_glitch")
+        glitch_n = ch.int(1, 3, "psutil_glitch_n")
+        glitch_site = ch.choose(["children", "ctor"], "psutil_glitch_site")
         # a hang without a time limit is only a fair workload if somebody will cancel it
         forced_shutdown = shut_kind in ("nowait", "registry", "callback", "nowait+wait")
         for jb in jobs:
@@ -136,6 +139,8 @@ class C17Check:
         st = {"shutdown_returned_at": None, "shutdown_started_at": None}
         try:
             shims.activate(sim, factory)
+            if glitch:
+                shims.PROCS.glitch = {"kind": glitch, "left": glitch_n, "site": glitch_site}
             seams.attach(only=("halmos.processes", "halmos.solve"))
             base = default_config().with_overrides(ConfigSource.command_line, solver_command="simsolver", verbose=0)
             executor = hp.PopenExecutor()
@@ -289,6 +294,8 @@ class C17Check:
                         par = p.parent
                         if par is not None and par.killed_by is None:
                             lived_until = min(lived_until, par.exit_at)
+                        if par is not None and par.enum_failed:
+                            continue  # halmos was never told about this helper (injected enumeration failure)
                         if lived_until > t_ret + GRACE and p.start_at <= end:
                             role = "child" if par is not None else "solver"
                             started = "started-after-return" if p.start_at > t_ret else (
